@@ -647,6 +647,25 @@ func (c *TermCtx) Mod(a, b *Term) *Term { // SMT-LIB Euclidean mod
 		if iv := c.Bounds(a); iv.lo != nil && iv.hi != nil && iv.lo.Sign() >= 0 && iv.hi.Cmp(k) < 0 {
 			return a
 		}
+		// ((x mod m) + y) mod k = (x + y) mod k when k | m   (a sum of wrapped terms is wrapped once)
+		if a.Op == "+" {
+			changed := false
+			args := make([]*Term, len(a.Args))
+			for i, t := range a.Args {
+				args[i] = t
+				if t.Op == "mod" && t.Args[1].IsConst() && t.Args[1].IVal.Sign() > 0 && new(big.Int).Rem(t.Args[1].IVal, k).Sign() == 0 {
+					args[i] = t.Args[0]
+					changed = true
+				}
+			}
+			if changed {
+				sum := args[0]
+				for _, t := range args[1:] {
+					sum = c.Add(sum, t)
+				}
+				return c.Mod(sum, b)
+			}
+		}
 	}
 	return c.mk("mod", IntSort, "", nil, a, b)
 }
